@@ -527,4 +527,4 @@ def run(chk):
     chk.rule('C10.L', 'shared with C10: every respelling of a function header gives the same parameter names (parse_script evaluated on layout variants, E6p)')
     layout_ok = chk.guard('C10.L', check_layout_sim, chk)
     chk.rule('C10.A', 'shared with C10: the parameter-list split consumes exactly the separator the function-begin regex allows (no blank ends up inside a parameter name)')
-    (chk.advisory if layout_ok else chk.guard)('C10.A', lambda: check_arg_split(chk, ParserModel(chk.repo, 'C10.A')))
+    chk.readback(layout_ok)('C10.A', lambda: check_arg_split(chk, ParserModel(chk.repo, 'C10.A')))
